@@ -72,7 +72,7 @@ def _run(tier, seed, replay=None):
         if w.violated != inv:
             raise vlib.Inconclusive("variant %s did not violate %s (exit %s)" % (name, inv, w.exit))
         variants[name] = inv
-    wit = vlib.witnesses("StatusFileMC", "StatusFile_quick.cfg", ["W_NoContention", "W_AllDone"] if tier == "quick" else ["W_NoContention", "W_NoTwoUpdates", "W_NoLoadOfRec", "W_AllDone"], wd)
+    wit = vlib.witnesses("StatusFileMC", "StatusFile_quick.cfg", [] if tier == "quick" else ["W_NoContention", "W_NoTwoUpdates", "W_NoLoadOfRec", "W_AllDone"], wd)
 
     # ---- (B) conformance of the real code
     vsf = vlib.build_harness("vsf")
